@@ -70,6 +70,8 @@ def path_to_dict(
     if not data:
         return None, None
 
+    data = data.copy()  # the resolver caches and shares its result
+
     # path mapping
     for key, value in data.items():
         # debug('{}, {}, {}'.format(key, value, template.name))
